@@ -1,6 +1,7 @@
 SPECIFICATION GSpec
 CONSTANTS
   Fused = FALSE
+  SoftReest = TRUE
   MaxAdds = 4
   MaxHeight = 1000
   MaxDisc = 3
